@@ -33,7 +33,7 @@ from hpstatic.terms import (sym, intern, show, subterms, calls_in, TRUE, FALSE,
 from .common import final_self, init_of, lt_form, path_has, norm_cond, beyond_guards
 from hpstatic.logic import cmp_is
 
-MUTATION_TARGETS = {'holopy/core/prior.py': ['__add__', '__mul__', '__radd__', '__sub__', '__rsub__', '__rmul__', '__truediv__', '__rtruediv__', '__neg__', '__pow__', '__rpow__', 'scale', 'unscale', 'lnprob', 'prob', 'sample', 'guess', 'interval', '__init__', 'variance']}
+MUTATION_TARGETS = {'holopy/core/prior.py': ['__add__', '__mul__', '__radd__', '__sub__', '__rsub__', '__rmul__', '__truediv__', '__rtruediv__', '__neg__', '__pow__', '__rpow__', 'scale', 'unscale', 'lnprob', 'prob', 'sample', 'guess', 'interval', '__init__', 'variance', 'updated']}
 
 LEVEL = 'other'
 META = dict(
@@ -42,7 +42,9 @@ META = dict(
               'methods; canonical-form equality with log rules; value-kind '
               'typestate of the rejection sampler (mask vs index tuple, scalar '
               'vs array, draws per rejected slot); denotation of the operator '
-              'overloads; CFG raising paths of the constructors',
+              'overloads; CFG raising paths of the constructors'
+              '; truth table of updated() over its guard atoms (declared bounds are k'
+              'ept in every row)',
     level_text='Static, for every prior class and every parameter value at once: '
                'decides R1-R7.  R2/R3/R5 are proofs of the stated identities '
                '(as rational-function / log identities); R1/R4 decide that no '
